@@ -124,10 +124,17 @@ def run(ctx):
         i_ctor = next((i for i, e in enumerate(evs[:ia]) if e.kind == "enter" and e.frame.fi.cls is not None and e.frame.fi.cls.qualname == sop.qualname and e.frame.fi.name == "__init__"), None)
         i_elig = next((i for i, e in enumerate(evs[:ia]) if _is_eligibility(e)), None)
         i_add = next((i for i, e in enumerate(evs[:ia]) if e.kind == "enter" and e.frame.fi is add), None)
+        def _inside_add(fr):
+            # Schedule.add itself or a helper it runs (a validation function moved to another module)
+            while fr is not None:
+                if fr.fi is add or (fr.fi.cls is not None and fr.fi.cls.qualname == sched.qualname):
+                    return True
+                fr = fr.parent
+            return False
+
         i_order = next(
             (i for i, e in enumerate(evs[:ia])
-             if e.kind == "branch" and i_add is not None and i > i_add
-             and e.frame.fi.cls is not None and e.frame.fi.cls.qualname == sched.qualname),
+             if e.kind == "branch" and i_add is not None and i > i_add and _inside_add(e.frame)),
             None,
         )
         missing = []
@@ -239,6 +246,30 @@ def run(ctx):
     if not callers and not any(i["rule"] in ("R01.a", "R01.b") and i["verdict"] != "holds" for i in chk.instances):
         raise AnalysisError("no caller of Schedule.add found")
     # wholesale installs: __init__ and the setter check before assigning
+    # (check_schedule itself, or the function it hands its whole argument to)
+    validators = set()
+    cs = sched.methods.get("check_schedule")
+    if cs is not None:
+        body = [x for x in cs.node.body if not (isinstance(x, ast.Expr) and isinstance(x.value, ast.Constant))]
+        if len(body) == 1 and isinstance(body[0], (ast.Expr, ast.Return)) and isinstance(body[0].value, ast.Call):
+            dc = body[0].value
+            if len(dc.args) == 1 and not dc.keywords and isinstance(dc.args[0], ast.Name) and dc.args[0].id in cs.params:
+                try:
+                    validators = {t.qualname for t in ctx.res.callees(cs, dc, sched)[0]}
+                except Exception:
+                    validators = set()
+
+    def _is_validator_call(c):
+        if (c.data.get("name") or "").endswith("check_schedule"):
+            return True
+        if not validators:
+            return False
+        try:
+            ts = ctx.res.callees(c.fi, c.node, c.fi.cls)[0]
+        except Exception:
+            return False
+        return bool(ts) and all(t.qualname in validators for t in ts)
+
     for m in [sched.methods.get("__init__"), sched.setters.get("schedule")]:
         if m is None:
             continue
@@ -253,11 +284,31 @@ def run(ctx):
                         st = e.node
                         val = getattr(st, "value", None)
                         checked = any(
-                            c.kind == "call" and (c.data.get("name") or "").endswith("check_schedule")
+                            c.kind == "call" and _is_validator_call(c)
                             and c.node.args and isinstance(val, ast.Name) and isinstance(c.node.args[0], ast.Name)
                             and c.node.args[0].id == val.id
                             for c in p.events[:i]
                         )
+                        if not checked and isinstance(val, ast.Name):
+                            # one fresh empty sequence per machine needs no validation: the value bound
+                            # last on this path is `[[] for _ in ...]` (possibly by a one-expression helper)
+                            last = None
+                            for c in p.events[:i]:
+                                if c.kind == "write" and c.data.get("local") and isinstance(c.node, (ast.Assign, ast.AnnAssign)) and c.frame is e.frame:
+                                    tg = c.node.targets[0] if isinstance(c.node, ast.Assign) and len(c.node.targets) == 1 else getattr(c.node, "target", None)
+                                    if isinstance(tg, ast.Name) and tg.id == val.id:
+                                        last = c
+                            if last is not None and last.node.value is not None:
+                                x = ctx.norm.xexpr(last.fi, last.node.value)
+                                if (
+                                    isinstance(x, ast.ListComp) and len(x.generators) == 1 and not x.generators[0].ifs
+                                    and isinstance(x.elt, ast.List) and not x.elt.elts
+                                ):
+                                    checked = True
+                        elif not checked and val is not None:
+                            x = ctx.norm.xexpr(e.fi, val)
+                            if isinstance(x, ast.ListComp) and len(x.generators) == 1 and not x.generators[0].ifs and isinstance(x.elt, ast.List) and not x.elt.elts:
+                                checked = True
                         if checked:
                             chk.ok("R01.b", m.qualname, e.loc, "installed after check_schedule")
                         else:
